@@ -308,6 +308,13 @@ def run(ctx: Ctx) -> int:
     with_nodes = ghs.cn([w for w in walk_local(lp) if isinstance(w, ast.With) and any(x in srcs for x in ast.walk(w))])
     ok = bool(with_nodes) and ghs.must_pass(with_nodes, heads, ghs.cn(rec_calls))
     ctx.oblige("C17.e", ok, rec_calls[0], "inner subcommands are handled after this level's section was completed" if ok else "the recursion into inner subcommands runs before this level's environment / defaults were merged: an inner subcommand named only by APP_A__SUBCOMMAND or by the sub-parser's own default config file is not seen yet - the parse fails with 'a.subcommand ... not provided'", fn=hs, construct="this level before inner levels")
+    # ... and after it was STORED: within one iteration the store of the completed section is not reachable from the recursion
+    merge_stores = [s_ for s_ in walk_local(lp) if isinstance(s_, ast.Assign) and any(call_leaf(c) == "merge_config" for c in calls_in(s_))]
+    loop_nodes = {a_ for (a_, _t, _l) in ghs.branch_edges(lp, "loop")}
+    if merge_stores:
+        after = ghs.reachable(ghs.cn(rec_calls), removed=loop_nodes, exclude_labels={"e"})
+        ok = not (after & set(ghs.cn(merge_stores)))
+        ctx.oblige("C17.e", ok, merge_stores[0], "the completed section is stored before the inner levels are handled" if ok else "the section completed with this level's environment / defaults is stored only after the recursion into the inner subcommands: the inner level looks into a section that does not yet hold what APP_A__SUBCOMMAND or the sub-parser's default config file say - the parse fails with 'not provided' or picks the wrong inner subcommand", fn=hs, construct="section stored before inner levels")
 
     # ---------------- C17.f required / unknown -----------------------------------------------------------------
     rz = [r for r in walk_local(gs) if isinstance(r, ast.Raise) and isinstance(r.exc, ast.Call) and call_leaf(r.exc) == "NSKeyError"]
@@ -350,6 +357,22 @@ def run(ctx: Ctx) -> int:
         bound_env = kw_.get("env", c.args[0] if c.args else None)
         ok = isinstance(bound_env, ast.Name) and bound_env.id == envp and isinstance(kw_.get("defaults"), ast.Name) and kw_["defaults"].id == "defaults"
         ctx.oblige("C17.e", ok, c, "the chosen subcommand's environment settings are read from the mapping that named it" if ok else "the nested parse_env does not receive the mapping being read: a subcommand chosen by parse_env({...}) takes its settings from os.environ instead of the mapping (values ignored, nested choice rejected)", fn=lev)
+
+    # provisional parses of a sub-parser (its environment / defaults, read while the outer parse is still collecting
+    # its sources) must not validate: what is required of the subcommand may still come from the command line, and
+    # the subcommand named by the environment may not be the one finally chosen
+    n_prov = 0
+    for fn_ in (lev, hs):
+        for c in calls_in(fn_):
+            leaf = call_leaf(c)
+            if leaf not in ("parse_env", "get_defaults") or not isinstance(c.func, ast.Attribute) or isinstance(c.func.value, ast.Name) and c.func.value.id == "self":
+                continue
+            n_prov += 1
+            kw_ = {k.arg: k.value for k in c.keywords if k.arg}
+            flag = kw_.get("_skip_validation", kw_.get("skip_validation"))
+            ok = isinstance(flag, ast.Constant) and flag.value is True
+            ctx.oblige("C17.e", ok, c, "the provisional parse of the sub-parser skips validation" if ok else f"`{ast.unparse(c)[:80]}` validates a provisional result: with APP_SUBCOMMAND=run in the environment, `prog stop` fails because `run` misses a required argument / nested subcommand that only the finally chosen command line would have to give", fn=fn_, construct=f"provisional {leaf} skips validation")
+    ctx.floor("C17.e-provisional-parses", n_prov, 3)
 
     # ---------------- C17.h intermediate folds do not decide ---------------------------------------------------
     # a configuration that is folded in BEFORE the command line / object has been seen (a default config file, a
